@@ -2,6 +2,7 @@ package main
 
 import (
 	"fmt"
+	"os"
 	"go/token"
 	"go/types"
 	"sort"
@@ -41,11 +42,14 @@ type Exec struct {
 	callSeen  map[string]bool
 	topLets   map[string]Val
 	curTag    string
+	curSite   ssa.Instruction
+	curCallFrame *Frame
+	curCallArgs  []Val
+	siteTags  map[ssa.Instruction]string // call tags of the function under verification, numbered in source order
 	loopEff   map[string]*loopEffects
 	topTargetsDone  bool
 	topTargetsCache []modTarget
 	topTargetsAll   bool
-	sentinels map[string]Val
 	compInt   map[string]intInfo
 }
 
@@ -73,6 +77,14 @@ type Frame struct {
 	paramVals map[string]Val // entry values
 	defers []*deferRec
 	parent *Frame
+	cells  []frameCell // heap cells holding this frame's captured local variables
+}
+
+// frameCell: a local variable that lives in a heap cell because a closure captures it.
+type frameCell struct {
+	ref   Term
+	t     types.Type
+	alloc *ssa.Alloc
 }
 
 type deferRec struct {
@@ -358,10 +370,15 @@ type loopEffects struct {
 	all    bool
 	ghosts bool
 	acquires bool // the blocks (re)acquire a monitor lock
+	why    []string
 }
 
 func (e *loopEffects) add(ts []modTarget) {
 	for _, t := range ts {
+		if t.GhostVar != "" {
+			e.ghosts = true
+			continue
+		}
 		if t.All {
 			e.all = true
 			continue
@@ -406,6 +423,9 @@ func (x *Exec) loopHead(fr *Frame, li *loopInfo, pre *State) (*State, error) {
 	x.u.havocAlloc = loopAlloc
 	defer func() { x.u.havocAlloc = Term{} }()
 	if eff.all {
+		if os.Getenv("GVC_DEBUG") != "" {
+			fmt.Fprintf(os.Stderr, "loop %d of %s: full havoc because %v\n", li.ordinal, fname, eff.why)
+		}
 		keep := map[string]Term{}
 		for k, v := range h.Heap {
 			if strings.HasPrefix(k, "GF$") {
@@ -735,6 +755,7 @@ func (x *Exec) effectsOfFunc(fn *ssa.Function, eff *loopEffects, visited map[*ss
 	}
 	visited[fn] = true
 	if fn.Blocks == nil {
+		eff.why = append(eff.why, "exec.go:753")
 		eff.all = true
 		return
 	}
@@ -772,6 +793,10 @@ func (x *Exec) effectsOfInstr(fr *Frame, ins ssa.Instruction, eff *loopEffects, 
 		if sl, ok := t.Type().Underlying().(*types.Slice); ok {
 			eff.add(x.elemTargets(sl.Elem(), nil))
 		}
+	case *ssa.Send:
+		eff.comps["GF$chan$sent"] = ArrSort(SInt, SInt)
+		eff.comps["GF$chan$last%tag"] = ArrSort(SInt, SInt)
+		eff.comps["GF$chan$last%val"] = ArrSort(SInt, SInt)
 	case *ssa.Next:
 		if top && fr != nil {
 			rng := t.Iter.(*ssa.Range)
@@ -832,6 +857,7 @@ func (x *Exec) effectsOfAddr(fr *Frame, addr ssa.Value, eff *loopEffects, top bo
 	default:
 		pt, ok := addr.Type().Underlying().(*types.Pointer)
 		if !ok {
+			eff.why = append(eff.why, "exec.go:854")
 			eff.all = true
 			return
 		}
@@ -839,6 +865,7 @@ func (x *Exec) effectsOfAddr(fr *Frame, addr ssa.Value, eff *loopEffects, top bo
 			eff.add(x.structTargets(pt.Elem(), nil))
 		} else {
 			// a computed pointer to a scalar may designate a cell or a field: be conservative
+			eff.why = append(eff.why, "exec.go:861")
 			eff.all = true
 		}
 	}
@@ -887,6 +914,7 @@ func (x *Exec) effectsOfCall(fr *Frame, ci ssa.CallInstruction, eff *loopEffects
 			x.contractEffects(fc, nil, c.Method.Type().(*types.Signature), eff)
 			return
 		}
+		eff.why = append(eff.why, "exec.go:909")
 		eff.all = true
 		return
 	}
@@ -910,6 +938,7 @@ func (x *Exec) effectsOfCall(fr *Frame, ci ssa.CallInstruction, eff *loopEffects
 				return
 			}
 		}
+		eff.why = append(eff.why, "exec.go:932")
 		eff.all = true
 		return
 	}
@@ -953,6 +982,7 @@ func (x *Exec) effectsOfCall(fr *Frame, ci ssa.CallInstruction, eff *loopEffects
 					if n, ok := types.Unalias(pt.Elem()).(*types.Named); ok && n.Obj().Pkg() != nil && !strings.HasPrefix(n.Obj().Pkg().Path(), repoMod) {
 						continue
 					}
+					eff.why = append(eff.why, "exec.go:975")
 					eff.all = true
 				case KSlice:
 					et := a.Type().Underlying().(*types.Slice).Elem()
@@ -960,15 +990,18 @@ func (x *Exec) effectsOfCall(fr *Frame, ci ssa.CallInstruction, eff *loopEffects
 					case KBool, KInt, KString, KFloat:
 						eff.add(x.elemTargets(et, nil))
 					default:
+						eff.why = append(eff.why, "exec.go:982")
 						eff.all = true
 					}
 				default:
+					eff.why = append(eff.why, "exec.go:985")
 					eff.all = true
 				}
 			}
 			return
 		}
 	}
+	eff.why = append(eff.why, "exec.go:991")
 	eff.all = true
 }
 
@@ -982,6 +1015,7 @@ func (x *Exec) monitorEffects(eff *loopEffects) {
 		for _, p := range m.Protects {
 			ts, err := x.modTargets(env, p)
 			if err != nil {
+				eff.why = append(eff.why, "exec.go:1004")
 				eff.all = true
 				return
 			}
@@ -1015,6 +1049,7 @@ func (x *Exec) contractEffects(fc *FuncContract, callee *ssa.Function, sig *type
 		}
 	}
 	if len(ptypes) != len(names) {
+		eff.why = append(eff.why, "exec.go:1037")
 		eff.all = true
 		return
 	}
@@ -1022,12 +1057,16 @@ func (x *Exec) contractEffects(fc *FuncContract, callee *ssa.Function, sig *type
 		env.names[n] = x.u.FreshVal("dummy."+n, ptypes[i])
 	}
 	if err := env.bindLets(fc); err != nil {
+		x.u.Trust(fmt.Sprintf("effects of %s could not be resolved (%v): treated as modifying everything", fc.Key, err))
+		eff.why = append(eff.why, "exec.go:1045")
 		eff.all = true
 		return
 	}
 	for _, it := range fc.Modifies {
 		ts, err := x.modTargets(env, it)
 		if err != nil {
+			x.u.Trust(fmt.Sprintf("effects of %s: modifies %s could not be resolved (%v): treated as modifying everything", fc.Key, it, err))
+			eff.why = append(eff.why, "exec.go:1052")
 			eff.all = true
 			return
 		}
